@@ -37,6 +37,8 @@
 EXTENDS Integers, Sequences, FiniteSets, TLC
 
 CONSTANTS NK, NST, NSU,     \* access keys, TCP close statuses, UDP packet statuses
+          NL,               \* location classes of the clients (each connection comes from a client of one class; the
+                            \* per-location series of a connection carry ITS client's location, whoever else reports)
           EmptyKey,         \* the key whose configured ID is the empty string (0 = no such key): its series carry
                             \* access_key="" - the same label as connections without a key; otherwise just another key
           MaxConn, MaxOps,
@@ -47,21 +49,26 @@ Keys0 == 0..NK
 Keys == 1..NK
 Conns == 1..MaxConn
 Lbl(k) == IF k = EmptyKey THEN 0 ELSE k     \* index of the access_key label a key is exported under
+Locs == 1..NL
 Dirs == 1..4                \* TCP/UDP: 1 c>p  2 p>t  3 p<t  4 c<p
 
 VARIABLES conn,             \* c -> [kind, st]  kind: "none","tcp","udp"; st: "open","authed","closed","nat","removed"
           rem,              \* c -> key remembered by the connection object (cm.accessKey)
+          cloc,             \* c -> location class of the connection's client (cm.clientInfo), 0 = none
           nconn,
           \* mechanism: the collectors' counters
           opened, closedCnt, tcpBytes, probeCnt, probeSum, natAdded, natRemoved, udpPkts, udpBytes,
+          openedL, closedL, tcpBytesL, udpPktsL, udpBytesL,     \* the same per location (…_per_location series)
           \* ghost: facts per connection from the history of calls alone
           gkey, gst, gdata, gprobeN, gprobeB, gpkN, gpkB,
           shown,            \* observation: what the last scrape exported ("none" fields when no scrape is pending)
           nops, tr
 
-mech  == <<opened, closedCnt, tcpBytes, probeCnt, probeSum, natAdded, natRemoved, udpPkts, udpBytes>>
+mechK == <<opened, closedCnt, tcpBytes, probeCnt, probeSum, natAdded, natRemoved, udpPkts, udpBytes>>
+mechL == <<openedL, closedL, tcpBytesL, udpPktsL, udpBytesL>>
+mech  == <<mechK, mechL>>
 ghost == <<gkey, gst, gdata, gprobeN, gprobeB, gpkN, gpkB>>
-vars  == <<conn, rem, nconn, mech, ghost, shown, nops, tr>>
+vars  == <<conn, rem, cloc, nconn, mech, ghost, shown, nops, tr>>
 
 RECURSIVE SumF(_, _)
 SumF(f, S) == IF S = {} THEN 0 ELSE LET x == CHOOSE y \in S : TRUE IN f[x] + SumF(f, S \ {x})
@@ -70,7 +77,9 @@ Zero4 == [d \in Dirs |-> 0]
 NoShow == [valid |-> FALSE]
 
 Init == /\ conn = [c \in Conns |-> [kind |-> "none", st |-> "none"]]
-        /\ rem = [c \in Conns |-> 0] /\ nconn = 0
+        /\ rem = [c \in Conns |-> 0] /\ cloc = [c \in Conns |-> 0] /\ nconn = 0
+        /\ openedL = [x \in Locs |-> 0] /\ closedL = [x \in Locs |-> 0] /\ tcpBytesL = [x \in Locs |-> Zero4]
+        /\ udpPktsL = [x \in Locs |-> [s \in 1..NSU |-> 0]] /\ udpBytesL = [x \in Locs |-> Zero4]
         /\ opened = 0 /\ closedCnt = [s \in 1..NST |-> [k \in Keys0 |-> 0]]
         /\ tcpBytes = [k \in Keys0 |-> Zero4] /\ probeCnt = 0 /\ probeSum = 0
         /\ natAdded = 0 /\ natRemoved = 0 /\ udpPkts = [s \in 1..NSU |-> 0]
@@ -84,59 +93,69 @@ Init == /\ conn = [c \in Conns |-> [kind |-> "none", st |-> "none"]]
 AddDirs(f, k, d) == [f EXCEPT ![k] = [x \in Dirs |-> @[x] + d[x]]]
 
 (* ---- Core actions (reused by MetricsCountTrace) ---- *)
-OpenCore(c) == /\ conn[c].kind = "none"
+OpenCore(c, x) == /\ conn[c].kind = "none"
                /\ conn' = [conn EXCEPT ![c] = [kind |-> "tcp", st |-> "open"]]
                /\ rem' = [rem EXCEPT ![c] = 0]            \* a NEW connection object: no key yet
+               /\ cloc' = [cloc EXCEPT ![c] = x]
                /\ nconn' = nconn + 1
                /\ opened' = opened + 1
-               /\ UNCHANGED <<closedCnt, tcpBytes, probeCnt, probeSum, natAdded, natRemoved, udpPkts, udpBytes, ghost>>
+               /\ openedL' = [openedL EXCEPT ![x] = @ + 1]
+               /\ UNCHANGED <<closedCnt, tcpBytes, probeCnt, probeSum, natAdded, natRemoved, udpPkts, udpBytes, ghost,
+                              closedL, tcpBytesL, udpPktsL, udpBytesL>>
 AuthCore(c, k) == /\ conn[c].kind = "tcp" /\ conn[c].st = "open"
                   /\ conn' = [conn EXCEPT ![c].st = "authed"]
                   /\ rem' = [rem EXCEPT ![c] = k]
                   /\ gkey' = [gkey EXCEPT ![c] = k]
-                  /\ UNCHANGED <<nconn, mech, gst, gdata, gprobeN, gprobeB, gpkN, gpkB>>
+                  /\ UNCHANGED <<nconn, cloc, mech, gst, gdata, gprobeN, gprobeB, gpkN, gpkB>>
 \* a probe report is made for connections that failed authentication
 ProbeCore(c, b) == /\ conn[c].kind = "tcp" /\ conn[c].st = "open"
                    /\ probeCnt' = probeCnt + 1 /\ probeSum' = probeSum + b
                    /\ gprobeN' = [gprobeN EXCEPT ![c] = @ + 1] /\ gprobeB' = [gprobeB EXCEPT ![c] = @ + b]
-                   /\ UNCHANGED <<conn, rem, nconn, opened, closedCnt, tcpBytes, natAdded, natRemoved, udpPkts, udpBytes,
-                                  gkey, gst, gdata, gpkN, gpkB>>
+                   /\ UNCHANGED <<conn, rem, cloc, nconn, opened, closedCnt, tcpBytes, natAdded, natRemoved, udpPkts, udpBytes,
+                                  mechL, gkey, gst, gdata, gpkN, gpkB>>
 CloseCore(c, s, d) == /\ conn[c].kind = "tcp" /\ conn[c].st \in {"open", "authed"}
                       /\ conn' = [conn EXCEPT ![c].st = "closed"]
                       /\ tcpBytes' = AddDirs(tcpBytes, Lbl(rem[c]), d)
                       /\ closedCnt' = [closedCnt EXCEPT ![s][Lbl(rem[c])] = @ + 1]
+                      /\ closedL' = [closedL EXCEPT ![cloc[c]] = @ + 1]
+                      /\ tcpBytesL' = AddDirs(tcpBytesL, cloc[c], d)
                       /\ gst' = [gst EXCEPT ![c] = s] /\ gdata' = [gdata EXCEPT ![c] = d]
-                      /\ UNCHANGED <<rem, nconn, opened, probeCnt, probeSum, natAdded, natRemoved, udpPkts, udpBytes,
-                                     gkey, gprobeN, gprobeB, gpkN, gpkB>>
-NatAddCore(c, k) == /\ conn[c].kind = "none"
+                      /\ UNCHANGED <<rem, cloc, nconn, opened, probeCnt, probeSum, natAdded, natRemoved, udpPkts, udpBytes,
+                                     openedL, udpPktsL, udpBytesL, gkey, gprobeN, gprobeB, gpkN, gpkB>>
+NatAddCore(c, k, x) == /\ conn[c].kind = "none"
                     /\ conn' = [conn EXCEPT ![c] = [kind |-> "udp", st |-> "nat"]]
                     /\ rem' = [rem EXCEPT ![c] = k]
+                    /\ cloc' = [cloc EXCEPT ![c] = x]
                     /\ nconn' = nconn + 1
                     /\ natAdded' = natAdded + 1
                     /\ gkey' = [gkey EXCEPT ![c] = k]
-                    /\ UNCHANGED <<opened, closedCnt, tcpBytes, probeCnt, probeSum, natRemoved, udpPkts, udpBytes,
+                    /\ UNCHANGED <<opened, closedCnt, tcpBytes, probeCnt, probeSum, natRemoved, udpPkts, udpBytes, mechL,
                                    gst, gdata, gprobeN, gprobeB, gpkN, gpkB>>
 \* reports may still arrive for an association that was just removed (datagram in flight while it expired)
 PktCCore(c, s, n, cp, pt) ==
     /\ conn[c].kind = "udp"
     /\ LET d == [x \in Dirs |-> IF x = 1 THEN n * cp ELSE IF x = 2 THEN n * pt ELSE 0] IN
        /\ udpBytes' = AddDirs(udpBytes, Lbl(rem[c]), d)
+       /\ udpBytesL' = AddDirs(udpBytesL, cloc[c], d)
        /\ gpkB' = [gpkB EXCEPT ![c] = [x \in Dirs |-> @[x] + d[x]]]
     /\ udpPkts' = [udpPkts EXCEPT ![s] = @ + n]
+    /\ udpPktsL' = [udpPktsL EXCEPT ![cloc[c]][s] = @ + n]
     /\ gpkN' = [gpkN EXCEPT ![c][s] = @ + n]
-    /\ UNCHANGED <<conn, rem, nconn, opened, closedCnt, tcpBytes, probeCnt, probeSum, natAdded, natRemoved,
-                   gkey, gst, gdata, gprobeN, gprobeB>>
+    /\ UNCHANGED <<conn, rem, cloc, nconn, opened, closedCnt, tcpBytes, probeCnt, probeSum, natAdded, natRemoved,
+                   openedL, closedL, tcpBytesL, gkey, gst, gdata, gprobeN, gprobeB>>
 PktTCore(c, n, tp, pc) ==
     /\ conn[c].kind = "udp"
     /\ LET d == [x \in Dirs |-> IF x = 3 THEN n * tp ELSE IF x = 4 THEN n * pc ELSE 0] IN
        /\ udpBytes' = AddDirs(udpBytes, Lbl(rem[c]), d)
+       /\ udpBytesL' = AddDirs(udpBytesL, cloc[c], d)
        /\ gpkB' = [gpkB EXCEPT ![c] = [x \in Dirs |-> @[x] + d[x]]]
-    /\ UNCHANGED <<conn, rem, nconn, opened, closedCnt, tcpBytes, probeCnt, probeSum, natAdded, natRemoved, udpPkts,
-                   gkey, gst, gdata, gprobeN, gprobeB, gpkN>>
+    /\ UNCHANGED <<conn, rem, cloc, nconn, opened, closedCnt, tcpBytes, probeCnt, probeSum, natAdded, natRemoved, udpPkts,
+                   openedL, closedL, tcpBytesL, udpPktsL, gkey, gst, gdata, gprobeN, gprobeB, gpkN>>
 NatRemoveCore(c) == /\ conn[c].kind = "udp" /\ conn[c].st = "nat"
                     /\ conn' = [conn EXCEPT ![c].st = "removed"]
                     /\ natRemoved' = natRemoved + 1
-                    /\ UNCHANGED <<rem, nconn, opened, closedCnt, tcpBytes, probeCnt, probeSum, natAdded, udpPkts, udpBytes, ghost>>
+                    /\ UNCHANGED <<rem, cloc, nconn, opened, closedCnt, tcpBytes, probeCnt, probeSum, natAdded, udpPkts, udpBytes,
+                                   mechL, ghost>>
 
 (* ---- property layer: what must be exported, from the ghost facts alone ---- *)
 TcpConns == {c \in Conns : conn[c].kind = "tcp"}
@@ -150,32 +169,38 @@ IdealNatAdded == Cardinality(UdpConns)
 IdealNatRemoved == Cardinality({c \in UdpConns : conn[c].st = "removed"})
 IdealUdpPkts == [s \in 1..NSU |-> SumF([c \in Conns |-> gpkN[c][s]], Conns)]
 IdealUdpBytes == [k \in Keys0 |-> [d \in Dirs |-> SumF([c \in Conns |-> IF c \in UdpConns /\ Lbl(gkey[c]) = k THEN gpkB[c][d] ELSE 0], Conns)]]
+IdealOpenedL == [x \in Locs |-> Cardinality({c \in TcpConns : cloc[c] = x})]
+IdealClosedL == [x \in Locs |-> Cardinality({c \in TcpConns : gst[c] # 0 /\ cloc[c] = x})]
+IdealTcpBytesL == [x \in Locs |-> [d \in Dirs |-> SumF([c \in Conns |-> IF c \in TcpConns /\ gst[c] # 0 /\ cloc[c] = x THEN gdata[c][d] ELSE 0], Conns)]]
+IdealUdpPktsL == [x \in Locs |-> [s \in 1..NSU |-> SumF([c \in Conns |-> IF cloc[c] = x THEN gpkN[c][s] ELSE 0], Conns)]]
+IdealUdpBytesL == [x \in Locs |-> [d \in Dirs |-> SumF([c \in Conns |-> IF c \in UdpConns /\ cloc[c] = x THEN gpkB[c][d] ELSE 0], Conns)]]
 AllTcpClosed == \A c \in TcpConns : conn[c].st = "closed"
 
 Exported == [valid |-> TRUE, opened |-> opened, closed |-> closedCnt, tbytes |-> tcpBytes, probeN |-> probeCnt,
-             probeB |-> probeSum, natadd |-> natAdded, natrem |-> natRemoved, upkts |-> udpPkts, ubytes |-> udpBytes]
+             probeB |-> probeSum, natadd |-> natAdded, natrem |-> natRemoved, upkts |-> udpPkts, ubytes |-> udpBytes,
+             openedL |-> openedL, closedL |-> closedL, tbytesL |-> tcpBytesL, upktsL |-> udpPktsL, ubytesL |-> udpBytesL]
 
 (* ---- bounded / history-recording actions ---- *)
 Step(e) == nops < MaxOps /\ nops' = nops + 1 /\ tr' = Append(tr, e)
 Quiet   == shown' = NoShow
-Open(c)        == c = nconn + 1 /\ OpenCore(c) /\ Quiet /\ Step([a |-> "Open", c |-> c])
+Open(c, x)     == c = nconn + 1 /\ OpenCore(c, x) /\ Quiet /\ Step([a |-> "Open", c |-> c, loc |-> x])
 Auth(c, k)     == AuthCore(c, k) /\ Quiet /\ Step([a |-> "Auth", c |-> c, key |-> k])
 Probe(c, b)    == ProbeCore(c, b) /\ Quiet /\ Step([a |-> "Probe", c |-> c, b |-> b])
 Close(c, s, d) == CloseCore(c, s, d) /\ Quiet /\ Step([a |-> "Close", c |-> c, st |-> s, d |-> d])
-NatAdd(c, k)   == c = nconn + 1 /\ NatAddCore(c, k) /\ Quiet /\ Step([a |-> "NatAdd", c |-> c, key |-> k])
+NatAdd(c, k, x) == c = nconn + 1 /\ NatAddCore(c, k, x) /\ Quiet /\ Step([a |-> "NatAdd", c |-> c, key |-> k, loc |-> x])
 PktC(c, s, n, cp, pt) == PktCCore(c, s, n, cp, pt) /\ Quiet
                          /\ Step([a |-> "PktC", c |-> c, st |-> s, n |-> n, cp |-> cp, pt |-> pt])
 PktT(c, n, tp, pc) == PktTCore(c, n, tp, pc) /\ Quiet /\ Step([a |-> "PktT", c |-> c, n |-> n, tp |-> tp, pc |-> pc])
 NatRemove(c)   == NatRemoveCore(c) /\ Quiet /\ Step([a |-> "NatRemove", c |-> c])
 Scrape == /\ shown' = Exported
-          /\ UNCHANGED <<conn, rem, nconn, mech, ghost>>
+          /\ UNCHANGED <<conn, rem, cloc, nconn, mech, ghost>>
           /\ Step([a |-> "Scrape"])
 
-Next == \/ \E c \in Conns : Open(c)
+Next == \/ \E c \in Conns, x \in Locs : Open(c, x)
         \/ \E c \in Conns, k \in Keys : Auth(c, k)
         \/ \E c \in Conns, b \in Amounts : Probe(c, b)
         \/ \E c \in Conns, s \in 1..NST, d \in [Dirs -> Amounts] : Close(c, s, d)
-        \/ \E c \in Conns, k \in Keys : NatAdd(c, k)
+        \/ \E c \in Conns, k \in Keys, x \in Locs : NatAdd(c, k, x)
         \/ \E c \in Conns, s \in 1..NSU, n \in Counts, cp \in Amounts, pt \in Amounts : PktC(c, s, n, cp, pt)
         \/ \E c \in Conns, n \in Counts, tp \in Amounts, pc \in Amounts : PktT(c, n, tp, pc)
         \/ \E c \in Conns : NatRemove(c)
@@ -193,11 +218,15 @@ ShownTcp == shown.valid => /\ shown.opened = IdealOpened
 OpenedEqClosed == (shown.valid /\ AllTcpClosed) =>
                      shown.opened = SumF([s \in 1..NST |-> SumF(shown.closed[s], Keys0)], 1..NST)
 \* C16 at the collector: associations added/removed once, packets per status, bytes per key and direction
+\* the per-location series carry the location of the connection's OWN client (C20: one label per client, by its class)
+ShownLoc == shown.valid => /\ shown.openedL = IdealOpenedL /\ shown.closedL = IdealClosedL
+                           /\ shown.tbytesL = IdealTcpBytesL
+                           /\ shown.upktsL = IdealUdpPktsL /\ shown.ubytesL = IdealUdpBytesL
 ShownUdp == shown.valid => /\ shown.natadd = IdealNatAdded /\ shown.natrem = IdealNatRemoved
                            /\ shown.upkts = IdealUdpPkts
                            /\ shown.ubytes = IdealUdpBytes
 \* the connection object never carries a key the connection was not authenticated with
 RememberedIsOwn == \A c \in Conns : rem[c] = gkey[c]
-View == <<conn, rem, nconn, mech, ghost, shown>>
+View == <<conn, rem, cloc, nconn, mech, ghost, shown>>
 ViewN == <<View, nops>>
 ===============================================================================
